@@ -52,6 +52,7 @@ def machine_rule(ctx, tier):
 
 
 def regex_rule(ctx):
+    rx.prepare(ctx.model)
     m = ctx.model
     node = m.consts.get(('RetractionState', 'GCODE_PARAMS_REGEX'))
     if not (isinstance(node, ast.Call) and node.args):
@@ -73,11 +74,19 @@ def regex_rule(ctx):
     ctx.sample({'rule': 'C05.R4', 'pattern': pat})
 
 
+def recorded_amount_c05(col, gcode, paths, I):
+    declare(col)
+    from .rules_c04 import recorded_amount
+    recorded_amount(col, gcode, paths, I, 'C05.R5')
+
+
 def run(ctx, tier):
     declare(ctx)
     machine_rule(ctx, tier)
     from .rules_c04 import addcommands_rule
     addcommands_rule(ctx, 'C05.R5', 'C05.R5')
+    from .handlers import run_path_rules
+    run_path_rules(ctx, __name__, 'recorded_amount_c05', ['G0', 'G1'], unroll=1)
     regex_rule(ctx)
     ctx.assume('matched equal-length cycles, E-only or firmware, not mixed (the property quantifier); travel moves that '
                'retract while moving are outside it')
